@@ -11,6 +11,12 @@ CLAIMED = {
    design_ref='DESIGN.md section 4, C07',
    note='Trusted: Coq kernel + vm_compute, Flocq 4.1.0, the 4 classical/real axioms of the stdlib reported by Print Assumptions, the hand-written model (tied to the code by bit-exact correspondence on generated cases, not by proof), IEEE-754 conformance of rustc/LLVM on x86-64.',
    technique='Coq/Flocq proof over all formats + bit-exact model/code correspondence (vm_compute)'),
+ 'C06': dict(
+   category='proof',
+   text='Theorems over the reals (exact tier) about the Gallina model of transform.rs: the invariant "matrix . stored inverse = identity, both affine" holds for every constructor and is preserved by *=, hence for chains of any length (induction over the list); round trips of points, vectors, normals and rays (ray: same direction, origin on the same line nudged forward); A*=B acts as "B then A" along whole chains; rotations rigid and counter-clockwise; changes_hands <-> negative determinant, composing like a sign; normals stay perpendicular. The same model text runs on primitive floats bit-for-bit against the crate (constructors within 2^-40: libm); the float "up to rounding" part is sampled by an exact-rational oracle.',
+   design_ref='DESIGN.md section 4, C06',
+   note='Trusted: Coq kernel + vm_compute, the stdlib real-number axioms (sig_forall_dec, sig_not_dec, functional_extensionality_dep), the hand-written model (bit-exact correspondence on generated chains), IEEE-754 conformance of rustc on x86-64. Not proved: float vs exact evaluation (sampled at 1e-9).',
+   technique='Coq proof over R by induction on transform chains + bit-exact model/code correspondence'),
 }
 NOT_YET = 'check not built yet in this round (machinery under construction); see DESIGN.md section 4 for the planned Coq model and theorems'
 
